@@ -29,7 +29,7 @@ class C04(PropBase):
     lean_modules = ["SqModel.Props.C04", "SqModel.Proofs.BridgeBits"]
     extractors = ["trans_bits", "crc"]
     rule = ("valid DF11/17/18 squitters x error patterns confined to bits 6..n: all single-bit, all double-bit (quick: 3 "
-            "squitters, thorough: 40), random bursts of <= 24 bits and random heavy patterns; each corrupted frame asked of "
+            "squitters, thorough: 40), every whole byte, every aligned 16-bit word and six nibbles inverted on 150 (thorough: 1500) squitters, random bursts of <= 24 bits and random heavy patterns; each corrupted frame asked of "
             "get_message and fed at a random point of a history of valid frames, table compared with the history without it. "
             "Non-trivial = pattern with non-zero remainder; distinct by (squitter, pattern).")
 
@@ -79,7 +79,40 @@ class C04(PropBase):
             pats.append(tuple(sorted(rng.sample(range(6, n + 1), k))))
         return pats
 
+    def aligned(self, rep, run, rng, tier, driver_ok):
+        """solid errors aligned with the byte / half-byte / two-byte grid of the frame - what a table-driven or word-wise CRC
+        consumes in one step - on many squitters: every whole data or parity byte inverted, every nibble, every aligned
+        16-bit word (a defect in one table entry shows on about one squitter in 25, at one byte position)"""
+        many = self.squitters(rng, 150 if tier == "quick" else 1500)
+        cases = []
+        for sq in many:
+            n = len(sq) * 4
+            for m in range(1, n // 8):
+                cases.append((sq, tuple(range(8 * m + 1, 8 * m + 9))))
+            for m in range(1, n // 16):
+                cases.append((sq, tuple(range(16 * m + 1, 16 * m + 17))))
+            for m in rng.sample(range(2, n // 4), 6):
+                cases.append((sq, tuple(range(4 * m + 1, 4 * m + 5))))
+        bad = [flip(sq, p) for sq, p in cases]
+        for lo in range(0, len(bad), 4000):
+            ops = ["reset", "case 0"] + ["q msg " + b.encode().hex() for b in bad[lo:lo + 4000]]
+            impl, _, model = run.execute(ops, model=driver_ok)
+            rep.evaluations += len(ops) - 2; rep.traces += 1
+            self.corr(rep, impl, model, "aligned solid errors")
+            ans = [l for l in impl if l.startswith("msg")]
+            if len(ans) != len(ops) - 2:
+                raise core.Broken("harness answer count mismatch", "")
+            for (sq, p), b, a in zip(cases[lo:lo + 4000], bad[lo:lo + 4000], ans):
+                if must_reject(b) and a != "msg -":
+                    self.fail(rep, f"squitter {sq} with bits {p[0]}..{p[-1]} inverted has non-zero remainder but is taken as a frame",
+                              {"ops": ["reset"] + gen.seg([sq]) + ["dump"] + gen.seg([b]) + ["dump"], "valid": sq, "line": b,
+                               "flipped_bits": list(p), "corrupted": b, "remainder": "%06X" % syndrome(b)})
+                    return False
+        return True
+
     def explore(self, rep, run, rng, tier, driver_ok):
+        if not self.aligned(rep, run, rng, tier, driver_ok):
+            return
         sqs = self.squitters(rng, 6 if tier == "quick" else 60)
         n_full = 3 if tier == "quick" else 40
         for si, sq in enumerate(sqs):
